@@ -29,6 +29,9 @@ def base_loop_table(run, model, rule="C04.accept-all"):
             ps = tables.paths(flow, start, {head.id}, stop_at_loops=True)
         except AnalysisError as err:
             raise AnalysisError("%s: body of the loop over the bases is not loop-free: %s" % (nf.fi.qual, err))
+        inner = [p for p in ps if p.outcome is not None and p.outcome[0] == "stop" and p.outcome[2] is not head]
+        if inner:
+            raise AnalysisError("%s: the body of the loop over the bases runs a loop of its own (line %s); the decision table of one iteration reads loop-free bodies only" % (nf.fi.qual, getattr(inner[0].outcome[2], "lineno", "?")))
         base_el = ("elem", ("param", nf.bases_p))
         finder = nf.finder
 
